@@ -133,6 +133,7 @@ package bgp
 //@   tag C05 C06
 //@   modifies nothing
 //@   ensures result >= ERROR_HANDLING_ATTRIBUTE_DISCARD && result <= ERROR_HANDLING_SESSION_RESET
+//@   ensures t == BGP_ATTR_TYPE_MP_REACH_NLRI || t == BGP_ATTR_TYPE_MP_UNREACH_NLRI ==> result > ERROR_HANDLING_TREAT_AS_WITHDRAW
 
 //@ func (*PathAttribute).Len
 //@   inline
@@ -423,6 +424,10 @@ package bgp
 // (if any) is accounted for, and the remembered class never decreases
 //@   loop 1 step e != nil ==> errClass(strongestError) >= errClass(e)
 //@   loop 1 step errClass(strongestError) >= header(errClass(strongestError))
+// from C06 "treat-as-withdraw ... its NLRI withdrawn": MP_REACH_NLRI / MP_UNREACH_NLRI carry the prefixes themselves;
+// when one of them fails to decode (for whatever reason, a flags conflict included) its prefixes are not available
+// and treat-as-withdraw would withdraw nothing - the reaction is the attribute's own, stronger one
+//@   loop 1 step e != nil && (p.GetType() == BGP_ATTR_TYPE_MP_REACH_NLRI || p.GetType() == BGP_ATTR_TYPE_MP_UNREACH_NLRI) ==> errClass(e) > ERROR_HANDLING_TREAT_AS_WITHDRAW
 // ... and whatever the function returns, from whichever exit, is at least as strong as everything remembered so
 // far and as the error just raised for the current attribute
 //@   at-return requires errClass(ret0) >= errClass(strongestError)
